@@ -8,6 +8,17 @@
     `schema diff`, `schema apply`, `schema inspect` and Planner.Checkpoint.
     Only statements, [exact] and [Print Assumptions] live here.
 
+    Round 3: a session does not only execute statements, it also *reads* the
+    state afterwards (Replay: r.ReadState; Normalize*: InspectRealm/
+    InspectSchema; DevLoader: d.inspect after the base files and after every
+    statement).  That read is an op of every body ([OInspect]) and can fail
+    although every statement succeeded (an object the inspector cannot parse, a
+    malformed --exclude pattern).  All theorems below quantify over bodies with
+    such ops, so "handed back empty" covers the exit "inspection failed"
+    ([OInspectFail]); C14_inspect_failure_restores names it.  Snapshot's own
+    inspection can fail as well ([OSnapshotFail]): then, as with a refusal,
+    nothing at all is issued.
+
     "Contains anything" is read as: sqlite_master holds a row that does not
     belong to a bookkeeping table of the engine ([prop_clean d = false]).
     sqlite_sequence cannot be dropped by any statement and `atlas schema clean`
@@ -34,53 +45,74 @@ Theorem C14_clean_coincide :
   forall d : db, wf_db d -> code_clean d = prop_clean d.
 Proof. exact clean_coincide. Qed.
 
+(** ... and Snapshot as a whole (its InspectRealm may fail) accepts exactly
+    those: nothing of a bookkeeping table is ever parsed by the inspection. *)
+Theorem C14_snapshot_coincide :
+  forall d : db, wf_db d -> (snapshot d = VClean <-> prop_clean d = true).
+Proof. exact snapshot_coincide. Qed.
+
 (** 1. Non-empty => refused and completely untouched.  Full statement, for
     every command (any session list [ss]), every body and all fault streams:
     if the database holds any object that is not engine bookkeeping, the first
     session refuses, nothing at all is issued (the event trace is empty: no
     write, no restore), the database and both fault streams are returned as
     they were.  (Before fix C14-hidden-table this needed the premise "no table
-    named LIKE 'sqlite_%'/'libsql_%'" and was refuted without it.) *)
+    named LIKE 'sqlite_%'/'libsql_%'" and was refuted without it.)
+    The way it declines is [decline_of d]: "not clean" ([ORefused]), or -- when
+    Snapshot's own InspectRealm cannot read the database -- the inspector's
+    error ([OSnapshotFail]); in both cases before any write. *)
 Theorem C14_refuse_untouched :
-  forall (d : db) (ss : list sess) (fs rs : list bool),
+  forall (d : db) (ss : list sess) (fs : faults) (rs : list bool),
   (exists o, In o d /\ bookkeeping o = false) ->
-  run_sessions ss fs rs d = (match ss with [] => OOk | _ => ORefused end, d, fs, rs, []).
+  run_sessions ss fs rs d = (match ss with [] => OOk | _ => decline_of d end, d, fs, rs, []) /\
+  declined (decline_of d) = true.
 Proof.
-  intros d ss fs rs H. apply run_sessions_refused, not_prop_clean_refused.
+  intros d ss fs rs H. split; [|apply decline_of_declined].
+  apply run_sessions_refused, not_prop_clean_declined.
   apply prop_clean_false_iff. exact H.
 Qed.
 
 Theorem C14_refuse_untouched_cmd :
-  forall (norm : normalizer) (c : command) (dir : mdir) (from to : source) (changes : bool)
-         (fs rs : list bool) (d : db),
+  forall (norm : normalizer) (c : command) (excl : bool) (dir : mdir) (from to : source) (changes : bool)
+         (fs : faults) (rs : list bool) (d : db),
   prop_clean d = false ->
-  sessions_of norm c dir from to <> [] ->
-  run_cmd norm c dir from to changes fs rs d = (ORefused, d, []).
+  sessions_of norm c excl dir from to <> [] ->
+  run_cmd norm c excl dir from to changes fs rs d = (decline_of d, d, []) /\
+  (decline_of d = ORefused \/ decline_of d = OSnapshotFail).
 Proof.
-  intros norm c dir from to changes fs rs d H Hne.
-  exact (run_cmd_refused norm c dir from to changes fs rs d (not_prop_clean_refused d H) Hne).
+  intros norm c excl dir from to changes fs rs d H Hne. split.
+  - exact (run_cmd_refused norm c excl dir from to changes fs rs d (not_prop_clean_declined d H) Hne).
+  - unfold decline_of. destruct (unreadable d); [right|left]; reflexivity.
 Qed.
+
+(** the same for whatever Snapshot does not accept, including a database its
+    inspection cannot read although the property would call it empty *)
+Theorem C14_declined_untouched :
+  forall (d : db) (ss : list sess) (fs : faults) (rs : list bool),
+  snapshot d <> VClean ->
+  run_sessions ss fs rs d = (match ss with [] => OOk | _ => decline_of d end, d, fs, rs, []).
+Proof. intros d ss fs rs H. exact (run_sessions_refused ss fs rs d H). Qed.
 
 (** which commands open at least one session: all of them, except schema
     diff/apply/inspect none of whose sources needs the dev database (database
     URLs; HCL files on a driver that is not a schema.Normalizer -- SQLite).
     Those never touch the dev database (C14_untouched_without_events). *)
 Theorem C14_sessions_nonempty :
-  forall norm c dir from to,
+  forall norm c excl dir from to,
   match c with
   | CValidate | CLint _ | CDiff | CCheckpoint => True
   | CSchemaDiff => replays from \/ replays to \/ normalizes norm from \/ normalizes norm to
   | CSchemaApply => replays to \/ normalizes norm to
   | CSchemaInspect => replays from \/ normalizes norm from
-  end -> sessions_of norm c dir from to <> [].
+  end -> sessions_of norm c excl dir from to <> [].
 Proof. exact sessions_of_nonempty. Qed.
 
 (** trace level: whatever the command, the sources and the fault streams, the
     database is exactly what it was unless a write succeeded or a restore
     reached its DELETE (so a refused or read-only run changes nothing). *)
 Theorem C14_untouched_without_events :
-  forall norm c dir from to changes fs rs d o d' es,
-  run_cmd norm c dir from to changes fs rs d = (o, d', es) ->
+  forall norm c excl dir from to changes fs rs d o d' es,
+  run_cmd norm c excl dir from to changes fs rs d = (o, d', es) ->
   existsb touching es = false -> d' = d.
 Proof. exact run_cmd_untouched. Qed.
 
@@ -88,30 +120,58 @@ Proof. exact run_cmd_untouched. Qed.
     sessions (each with restores nested in its body wherever LoadChanges puts
     them), every accepted start (empty, or engine bookkeeping only), every
     body and every fault stream [fs] over the replay/normalisation statements
-    -- i.e. whichever statement fails, in whichever session -- the final state
+    and over the reads of the state (each of which fails in any case when the
+    database holds something the inspector cannot parse) -- i.e. whichever
+    statement or read fails, in whichever session -- the final state
     is strictly empty, the run ends with a complete restore and is never
-    reported as refused.  [rs = []]: no statement of a RestoreFunc fails. *)
+    reported as refused.  [rs = []]: no statement of a RestoreFunc fails.
+    The bodies range over reads ([OInspect]) too: the exit "all statements
+    succeeded, the inspection afterwards failed" is one of the exits covered. *)
 Theorem C14_handed_back_empty :
-  forall (ss : list sess) (fs : list bool) (d : db),
-  code_clean d = true -> ss <> [] ->
+  forall (ss : list sess) (fs : faults) (d : db),
+  snapshot d = VClean -> ss <> [] ->
   exists o fs' es, run_sessions ss fs [] d = (o, [], fs', [], es ++ [ERestore 4]) /\
-                   o <> ORefused /\ o <> ORestoreFail.
-Proof. exact run_sessions_nofault. Qed.
+                   o <> ORefused /\ o <> OSnapshotFail /\ o <> ORestoreFail.
+Proof.
+  intros ss fs d Hc Hne. destruct (run_sessions_nofault ss fs d Hc Hne) as [o [fs' [es [E [Hd Hr]]]]].
+  exists o, fs', es. split; [exact E|]. repeat split; try exact Hr; intros ->; discriminate.
+Qed.
+
+(** 2a. The exit itself.  Whenever a session ends with "inspection failed":
+    it had been accepted, none of its statements (and no mid-session restore)
+    failed -- every event before the last is a success --, the outcome names a
+    read op of its body, and the last thing that happened is the RestoreFunc;
+    the database is empty if that reached its DELETE, and with no restore
+    fault it ran to its end (k = 4).  Same for any session list / command. *)
+Theorem C14_inspect_failure_restores :
+  forall (s : sess) (fs : faults) (rs : list bool) (d : db) m d' fs' rs' es,
+  run_session s fs rs d = (OInspectFail m, d', fs', rs', es) ->
+  snapshot d = VClean /\
+  exists es0 k, es = es0 ++ [ERestore k] /\ forallb ok_event es0 = true /\
+                (exists bad, In (OInspect m bad) (s_body s)) /\
+                (2 <= k -> d' = []) /\ (rs = [] -> k = 4 /\ d' = []).
+Proof. exact run_session_inspect_fail. Qed.
+
+Theorem C14_inspect_failure_restores_cmd :
+  forall norm c excl dir from to changes fs rs d m d' es,
+  run_cmd norm c excl dir from to changes fs rs d = (OInspectFail m, d', es) ->
+  exists es0 k, es = es0 ++ [ERestore k] /\ (2 <= k -> d' = []) /\ (rs = [] -> k = 4 /\ d' = []).
+Proof. exact run_cmd_inspect_fail. Qed.
 
 Theorem C14_handed_back_empty_cmd :
-  forall norm c dir from to changes fs o d' es,
-  run_cmd norm c dir from to changes fs [] [] = (o, d', es) -> d' = [].
+  forall norm c excl dir from to changes fs o d' es,
+  run_cmd norm c excl dir from to changes fs [] [] = (o, d', es) -> d' = [].
 Proof. exact run_cmd_from_empty. Qed.
 
 Theorem C14_handed_back_empty_cmd_bookkeeping :
-  forall norm c dir from to changes fs d o d' es,
+  forall norm c excl dir from to changes fs d o d' es,
   wf_db d -> prop_clean d = true ->
-  sessions_of norm c dir from to <> [] ->
-  run_cmd norm c dir from to changes fs [] d = (o, d', es) -> d' = [].
+  sessions_of norm c excl dir from to <> [] ->
+  run_cmd norm c excl dir from to changes fs [] d = (o, d', es) -> d' = [].
 Proof.
-  intros norm c dir from to changes fs d o d' es Hwf Hp Hne.
-  exact (run_cmd_handed_back norm c dir from to changes fs d o d' es
-           (code_clean_complete d Hwf Hp) Hne).
+  intros norm c excl dir from to changes fs d o d' es Hwf Hp Hne.
+  exact (run_cmd_handed_back norm c excl dir from to changes fs d o d' es
+           (snapshot_complete d Hwf Hp) Hne).
 Qed.
 
 (** 2'. Decision recorded for a failing restore (outside the property's
@@ -125,11 +185,11 @@ Qed.
     (unnamed results: the error is dropped), where a following session refuses
     the dirty database. *)
 Theorem C14_restore_always_runs :
-  forall norm c dir from to changes (fs rs : list bool) (d : db),
-  code_clean d = true -> sessions_of norm c dir from to <> [] ->
+  forall norm c excl dir from to changes (fs : faults) (rs : list bool) (d : db),
+  snapshot d = VClean -> sessions_of norm c excl dir from to <> [] ->
   exists o d' es k tail,
-    run_cmd norm c dir from to changes fs rs d = (o, d', es ++ [ERestore k] ++ tail) /\
-    (2 <= k -> d' = []) /\ (o = ORefused -> k < 2) /\ (tail = [] \/ tail = [EDirWrite]).
+    run_cmd norm c excl dir from to changes fs rs d = (o, d', es ++ [ERestore k] ++ tail) /\
+    (2 <= k -> d' = []) /\ (declined o = true -> k < 2) /\ (tail = [] \/ tail = [EDirWrite]).
 Proof. exact run_cmd_restore_last. Qed.
 
 (** 3. Replaying never writes the directory: no session of any command emits
@@ -137,19 +197,19 @@ Proof. exact run_cmd_restore_last. Qed.
     / Planner.Checkpoint never writes it; those two write it once, after the
     last session was closed, only on success and only with a non-empty plan. *)
 Theorem C14_dir_readonly :
-  forall (ss : list sess) (fs rs : list bool) (d : db) o d' fs' rs' es,
+  forall (ss : list sess) (fs : faults) (rs : list bool) (d : db) o d' fs' rs' es,
   run_sessions ss fs rs d = (o, d', fs', rs', es) -> ~ In EDirWrite es.
 Proof. exact run_sessions_no_dirwrite. Qed.
 
 Theorem C14_dir_readonly_cmd :
-  forall norm c dir from to changes fs rs d o d' es,
-  run_cmd norm c dir from to changes fs rs d = (o, d', es) ->
+  forall norm c excl dir from to changes fs rs d o d' es,
+  run_cmd norm c excl dir from to changes fs rs d = (o, d', es) ->
   (writes_dir c = false \/ o <> OOk \/ changes = false) -> ~ In EDirWrite es.
 Proof. exact run_cmd_dir_readonly. Qed.
 
 Theorem C14_dir_written_only_by_plan :
-  forall norm c dir from to changes fs rs d o d' es,
-  run_cmd norm c dir from to changes fs rs d = (o, d', es) ->
+  forall norm c excl dir from to changes fs rs d o d' es,
+  run_cmd norm c excl dir from to changes fs rs d = (o, d', es) ->
   exists es0, ~ In EDirWrite es0 /\
     ((es = es0 /\ (writes_dir c = false \/ o <> OOk \/ changes = false)) \/
      (es = es0 ++ [EDirWrite] /\ writes_dir c = true /\ o = OOk /\ changes = true)).
@@ -157,7 +217,11 @@ Proof. exact run_cmd_dirwrite. Qed.
 
 Print Assumptions C14_clean_sound.
 Print Assumptions C14_clean_coincide.
+Print Assumptions C14_snapshot_coincide.
 Print Assumptions C14_refuse_untouched.
+Print Assumptions C14_declined_untouched.
+Print Assumptions C14_inspect_failure_restores.
+Print Assumptions C14_inspect_failure_restores_cmd.
 Print Assumptions C14_refuse_untouched_cmd.
 Print Assumptions C14_sessions_nonempty.
 Print Assumptions C14_untouched_without_events.
@@ -179,7 +243,7 @@ Definition ex_sqlitedb : bytes := [115; 113; 108; 105; 116; 101; 100; 98]%N.  (*
 Definition ex_seq : bytes :=   (* "sqlite_sequence" *)
   [115; 113; 108; 105; 116; 101; 95; 115; 101; 113; 117; 101; 110; 99; 101]%N.
 Definition ex_user_db : db :=
-  [mkObj KTable ex_t0 ex_t0 3; mkObj KIndex ex_i0 ex_t0 0; mkObj KTrigger ex_g0 ex_t0 0].
+  [mkObj KTable ex_t0 ex_t0 3 true; mkObj KIndex ex_i0 ex_t0 0 true; mkObj KTrigger ex_g0 ex_t0 0 true].
 Definition ex_dir : mdir := [mkMFile false [(1, SCreateTable ex_t0); (2, SInsert ex_t0)]].
 Definition ex_dir2 : mdir :=
   [mkMFile false [(1, SCreateTable ex_t0); (2, SCreateIndex ex_i0 ex_t0); (3, SCreateView ex_v0)];
@@ -188,28 +252,45 @@ Definition ex_dir2 : mdir :=
 (* the verdicts: the former witnesses of the hole are refused, the residue of
    AUTOINCREMENT tables is accepted *)
 Example C14_clean_nonvacuous :
-  code_clean [mkObj KTable ex_libsql ex_libsql 2] = false /\
-  code_clean [mkObj KTable ex_sqlitedb ex_sqlitedb 1; mkObj KIndex ex_i0 ex_sqlitedb 0] = false /\
-  code_clean [mkObj KView ex_v0 ex_v0 0] = false /\
-  code_clean [mkObj KTable ex_seq ex_seq 0] = true /\ code_clean [mkObj KTable b_wasm b_wasm 0] = true /\
+  code_clean [mkObj KTable ex_libsql ex_libsql 2 true] = false /\
+  code_clean [mkObj KTable ex_sqlitedb ex_sqlitedb 1 true; mkObj KIndex ex_i0 ex_sqlitedb 0 true] = false /\
+  code_clean [mkObj KView ex_v0 ex_v0 0 true] = false /\
+  code_clean [mkObj KTable ex_seq ex_seq 0 true] = true /\ code_clean [mkObj KTable b_wasm b_wasm 0 true] = true /\
   hidden_name ex_libsql = true /\ hidden_name ex_sqlitedb = true.
+Proof. vm_compute. repeat split. Qed.
+
+(* Snapshot as a whole: its inspection fails on a visible table it cannot parse (also next to
+   bookkeeping), not on a hidden one; bookkeeping only is accepted; a view is "not clean" *)
+Example C14_snapshot_nonvacuous :
+  snapshot [mkObj KTable ex_seq ex_seq 0 true; mkObj KTable ex_t0 ex_t0 0 false] = VInspectErr /\
+  snapshot [mkObj KTable ex_t0 ex_t0 0 true; mkObj KIndex ex_i0 ex_t0 0 false] = VInspectErr /\
+  snapshot [mkObj KTable ex_sqlitedb ex_sqlitedb 0 false] = VNotClean /\
+  snapshot [mkObj KView ex_v0 ex_v0 0 false] = VNotClean /\
+  snapshot [mkObj KTable ex_seq ex_seq 0 true] = VClean /\ snapshot [] = VClean /\
+  prop_clean [mkObj KTable ex_seq ex_seq 0 true] = true.
 Proof. vm_compute. repeat split. Qed.
 
 (* a user database -- also one the inspection cannot see -- is refused, untouched *)
 Example C14_refuse_nonvacuous :
-  run_cmd NoNorm (CLint 1) ex_dir2 SrcNone SrcNone false [] [] ex_user_db = (ORefused, ex_user_db, []) /\
-  run_cmd NoNorm CValidate ex_dir SrcNone SrcNone false [] [] [mkObj KTable ex_libsql ex_libsql 2]
-    = (ORefused, [mkObj KTable ex_libsql ex_libsql 2], []).
-Proof. vm_compute. split; reflexivity. Qed.
+  run_cmd NoNorm (CLint 1) false ex_dir2 SrcNone SrcNone false ([], []) [] ex_user_db = (ORefused, ex_user_db, []) /\
+  run_cmd NoNorm CValidate false ex_dir SrcNone SrcNone false ([], []) [] [mkObj KTable ex_libsql ex_libsql 2 true]
+    = (ORefused, [mkObj KTable ex_libsql ex_libsql 2 true], []) /\
+  (* a table Snapshot's inspection cannot read: declined with the inspector's error, untouched *)
+  run_cmd NoNorm CValidate false ex_dir SrcNone SrcNone false ([], []) [] [mkObj KTable ex_t0 ex_t0 1 false]
+    = (OSnapshotFail, [mkObj KTable ex_t0 ex_t0 1 false], []) /\
+  (* ... unless the inspection never looks at it (hidden name): plain refusal *)
+  run_cmd NoNorm CValidate false ex_dir SrcNone SrcNone false ([], []) [] [mkObj KTable ex_sqlitedb ex_sqlitedb 1 false]
+    = (ORefused, [mkObj KTable ex_sqlitedb ex_sqlitedb 1 false], []).
+Proof. vm_compute. repeat split. Qed.
 
 (* statement 6 (second insert: UNIQUE violation) fails with a table, an index,
    a view, a trigger and a row in place; everything is gone afterwards; the
    same from a database holding the sqlite_sequence residue *)
 Example C14_handed_back_nonvacuous :
-  run_cmd NoNorm CValidate ex_dir2 SrcNone SrcNone false [] [] [] =
+  run_cmd NoNorm CValidate false ex_dir2 SrcNone SrcNone false ([], []) [] [] =
     (OFail 6, [], [EWrite 1 true; EWrite 2 true; EWrite 3 true; EWrite 4 true; EWrite 5 true;
                    EWrite 6 false; ERestore 4]) /\
-  run_cmd NoNorm CValidate ex_dir SrcNone SrcNone false [] [] [mkObj KTable ex_seq ex_seq 0] =
+  run_cmd NoNorm CValidate false ex_dir SrcNone SrcNone false ([], []) [] [mkObj KTable ex_seq ex_seq 0 true] =
     (OOk, [], [EWrite 1 true; EWrite 2 true; ERestore 4]).
 Proof. vm_compute. split; reflexivity. Qed.
 
@@ -217,45 +298,114 @@ Proof. vm_compute. split; reflexivity. Qed.
    VACUUM fails -> empty, error reported; through NormalizeSchema the error is
    dropped and the next session refuses the dirty database *)
 Example C14_restore_fault_nonvacuous :
-  run_cmd NoNorm CValidate ex_dir SrcNone SrcNone false [] [false; true] [] =
-    (ORestoreFail, [mkObj KTable ex_t0 ex_t0 1], [EWrite 1 true; EWrite 2 true; ERestore 1]) /\
-  run_cmd NoNorm CValidate ex_dir SrcNone SrcNone false [] [false; false; false; true] [] =
+  run_cmd NoNorm CValidate false ex_dir SrcNone SrcNone false ([], []) [false; true] [] =
+    (ORestoreFail, [mkObj KTable ex_t0 ex_t0 1 true], [EWrite 1 true; EWrite 2 true; ERestore 1]) /\
+  run_cmd NoNorm CValidate false ex_dir SrcNone SrcNone false ([], []) [false; false; false; true] [] =
     (ORestoreFail, [], [EWrite 1 true; EWrite 2 true; ERestore 3]) /\
-  run_cmd NormSchema CSchemaDiff [] (SrcHCL [mkHTable 1 ex_t0 []]) (SrcHCL [mkHTable 2 ex_t0 []])
-          false [] [true] [] =
-    (ORefused, [mkObj KTable ex_t0 ex_t0 0], [EWrite 1 true; ERestore 0]).
+  run_cmd NormSchema CSchemaDiff false [] (SrcHCL [mkHTable 1 ex_t0 [] false]) (SrcHCL [mkHTable 2 ex_t0 [] false])
+          false ([], []) [true] [] =
+    (ORefused, [mkObj KTable ex_t0 ex_t0 0 true], [EWrite 1 true; ERestore 0]).
 Proof. vm_compute. repeat split. Qed.
 
 (* nothing succeeded (read-only connection): nothing changed *)
 Example C14_untouched_nonvacuous :
-  run_cmd NoNorm CValidate ex_dir SrcNone SrcNone false [true] [true] [] =
+  run_cmd NoNorm CValidate false ex_dir SrcNone SrcNone false ([true], []) [true] [] =
     (OFail 1, [], [EWrite 1 false; ERestore 0]).
 Proof. vm_compute. reflexivity. Qed.
 
 (* migrate diff against an SQL schema: two sessions, then the plan is written;
    against an HCL schema on a normalising driver: replay, then normalise *)
 Example C14_dir_nonvacuous :
-  run_cmd NoNorm CDiff [mkMFile false [(1, SCreateTable ex_t0)]] SrcNone
-          (SrcSQL [(2, SCreateTable ex_t0); (3, SCreateView ex_v0)]) true [] [] [] =
+  run_cmd NoNorm CDiff false [mkMFile false [(1, SCreateTable ex_t0)]] SrcNone
+          (SrcSQL [(2, SCreateTable ex_t0); (3, SCreateView ex_v0)]) true ([], []) [] [] =
     (OOk, [], [EWrite 2 true; EWrite 3 true; ERestore 4; EWrite 1 true; ERestore 4; EDirWrite]) /\
-  run_cmd NormRealm CDiff [mkMFile false [(1, SCreateTable ex_t0)]] SrcNone
-          (SrcHCL [mkHTable 2 ex_t0 [(3, ex_i0)]]) true [] [] [] =
+  run_cmd NormRealm CDiff false [mkMFile false [(1, SCreateTable ex_t0)]] SrcNone
+          (SrcHCL [mkHTable 2 ex_t0 [(3, ex_i0)] false]) true ([], []) [] [] =
     (OOk, [], [EWrite 1 true; ERestore 4; EWrite 2 true; EWrite 3 true; ERestore 4; EDirWrite]) /\
-  run_cmd NoNorm CCheckpoint [mkMFile false [(1, SCreateTable ex_t0)]] SrcNone SrcNone true [] [] [] =
+  run_cmd NoNorm CCheckpoint false [mkMFile false [(1, SCreateTable ex_t0)]] SrcNone SrcNone true ([], []) [] [] =
     (OOk, [], [EWrite 1 true; ERestore 4; EDirWrite]) /\
-  run_cmd NoNorm CSchemaInspect [] (SrcSQL [(1, SCreateTable ex_t0)]) SrcNone true [] [] [] =
+  run_cmd NoNorm CSchemaInspect false [] (SrcSQL [(1, SCreateTable ex_t0)]) SrcNone true ([], []) [] [] =
     (OOk, [], [EWrite 1 true; ERestore 4]).
 Proof. vm_compute. repeat split. Qed.
 
 (* lint restores in mid-session before a checkpoint file *)
 Example C14_lint_checkpoint_nonvacuous :
-  run_cmd NoNorm (CLint 2) [mkMFile false [(1, SCreateTable ex_t0)];
-                            mkMFile true [(2, SCreateTable ex_t0)]] SrcNone SrcNone false [true; false] [] [] =
+  run_cmd NoNorm (CLint 2) false [mkMFile false [(1, SCreateTable ex_t0)];
+                            mkMFile true [(2, SCreateTable ex_t0)]] SrcNone SrcNone false ([true; false], []) [] [] =
     (OFail 1, [], [EWrite 1 false; ERestore 4]) /\
-  run_cmd NoNorm (CLint 2) [mkMFile false [(1, SCreateTable ex_t0)];
-                            mkMFile true [(2, SCreateTable ex_t0)]] SrcNone SrcNone false [] [] [] =
+  run_cmd NoNorm (CLint 2) false [mkMFile false [(1, SCreateTable ex_t0)];
+                            mkMFile true [(2, SCreateTable ex_t0)]] SrcNone SrcNone false ([], []) [] [] =
     (OOk, [], [EWrite 1 true; ERestore 4; EWrite 2 true; ERestore 4]) /\
-  run_cmd NoNorm (CLint 2) [mkMFile false [(1, SCreateTable ex_t0)];
-                            mkMFile true [(2, SCreateTable ex_t0)]] SrcNone SrcNone false [] [true] [] =
+  run_cmd NoNorm (CLint 2) false [mkMFile false [(1, SCreateTable ex_t0)];
+                            mkMFile true [(2, SCreateTable ex_t0)]] SrcNone SrcNone false ([], []) [true] [] =
     (ORestoreFail, [], [EWrite 1 true; ERestore 0; ERestore 4]).
+Proof. vm_compute. repeat split. Qed.
+
+(* the exit "all statements succeeded, the inspection afterwards failed":
+   - Replay (validate): the table with the unparsable column is created, the row inserted, ReadState fails;
+   - the same although a later statement dropped nothing (index written with a lower-case where);
+   - Replay inspects only at the end: a table created and dropped again does not fail it;
+   - DevLoader (lint) inspects after every statement: the same file fails right after statement 1,
+     statement 2 is never executed;
+   - a file of more than 10 statements as the first file is inspected once, at its end;
+   - schema inspect with a malformed --exclude: fails iff there is a table to match;
+   - NormalizeRealm/NormalizeSchema: the inspection after ApplyChanges fails;
+   - migrate diff: the desired state is read first, the directory is never replayed nor written. *)
+Definition ex_dirU : mdir := [mkMFile false [(1, SCreateTableU ex_t0); (2, SInsert ex_t0)]].
+Definition ex_dirUD : mdir := [mkMFile false [(1, SCreateTableU ex_t0); (2, SDropTable ex_t0)]].
+Definition ex_long : list (nat * stmt) :=
+  [(1, SCreateTableU ex_t0); (2, SDropTable ex_t0); (3, SCreateTable ex_t0); (4, SDropTable ex_t0);
+   (5, SCreateTable ex_t0); (6, SDropTable ex_t0); (7, SCreateTable ex_t0); (8, SDropTable ex_t0);
+   (9, SCreateTable ex_t0); (10, SDropTable ex_t0); (11, SCreateTable ex_t0)].
+Example C14_inspect_failure_nonvacuous :
+  run_cmd NoNorm CValidate false ex_dirU SrcNone SrcNone false ([], []) [] [] =
+    (OInspectFail 0, [], [EWrite 1 true; EWrite 2 true; ERestore 4]) /\
+  run_cmd NoNorm CValidate false [mkMFile false [(1, SCreateTable ex_t0); (2, SCreateIndexU ex_i0 ex_t0); (3, SCreateView ex_v0)]]
+          SrcNone SrcNone false ([], []) [] [mkObj KTable ex_seq ex_seq 0 true] =
+    (OInspectFail 0, [], [EWrite 1 true; EWrite 2 true; EWrite 3 true; ERestore 4]) /\
+  run_cmd NoNorm CValidate false ex_dirUD SrcNone SrcNone false ([], []) [] [] =
+    (OOk, [], [EWrite 1 true; EWrite 2 true; ERestore 4]) /\
+  run_cmd NoNorm (CLint 1) false ex_dirUD SrcNone SrcNone false ([], []) [] [] =
+    (OInspectFail 1, [], [EWrite 1 true; ERestore 4]) /\
+  run_cmd NoNorm (CLint 1) false [mkMFile false ex_long] SrcNone SrcNone false ([], []) [] [] =
+    (OOk, [], [EWrite 1 true; EWrite 2 true; EWrite 3 true; EWrite 4 true; EWrite 5 true; EWrite 6 true;
+               EWrite 7 true; EWrite 8 true; EWrite 9 true; EWrite 10 true; EWrite 11 true; ERestore 4]) /\
+  run_cmd NoNorm CSchemaInspect true [] (SrcSQL [(1, SCreateTable ex_t0)]) SrcNone false ([], []) [] [] =
+    (OInspectFail 0, [], [EWrite 1 true; ERestore 4]) /\
+  run_cmd NoNorm CSchemaInspect true [] (SrcSQL [(1, SCreateView ex_v0)]) SrcNone false ([], []) [] [] =
+    (OOk, [], [EWrite 1 true; ERestore 4]) /\
+  run_cmd NormRealm CSchemaApply false [] SrcNone (SrcHCL [mkHTable 1 ex_t0 [(2, ex_i0)] true]) false ([], []) [] [] =
+    (OInspectFail 0, [], [EWrite 1 true; EWrite 2 true; ERestore 4]) /\
+  run_cmd NormSchema CSchemaApply false [] SrcNone (SrcHCL [mkHTable 1 ex_t0 [] true]) false ([], []) [] [] =
+    (OInspectFail 0, [], [EWrite 1 true; ERestore 4]) /\
+  run_cmd NoNorm CDiff false ex_dir SrcNone (SrcSQL [(3, SCreateTableU ex_t0)]) true ([], []) [] [] =
+    (OInspectFail 0, [], [EWrite 3 true; ERestore 4]).
+Proof. vm_compute. repeat split. Qed.
+
+(* the same exit with a failing restore: the DELETE fails -> the unreadable table stays (and the
+   next command's Snapshot fails on it); only VACUUM fails -> empty; the inspector's error is what
+   is reported in both cases *)
+Example C14_inspect_failure_restore_fault_nonvacuous :
+  run_cmd NoNorm CValidate false ex_dirU SrcNone SrcNone false ([], []) [false; true] [] =
+    (OInspectFail 0, [mkObj KTable ex_t0 ex_t0 1 false], [EWrite 1 true; EWrite 2 true; ERestore 1]) /\
+  run_cmd NoNorm CValidate false ex_dirU SrcNone SrcNone false ([], []) [false; false; false; true] [] =
+    (OInspectFail 0, [], [EWrite 1 true; EWrite 2 true; ERestore 3]) /\
+  run_cmd NormSchema CSchemaDiff false [] (SrcHCL [mkHTable 1 ex_t0 [] true]) (SrcHCL [mkHTable 2 ex_t0 [] false])
+          false ([], []) [true] [] =
+    (OInspectFail 0, [mkObj KTable ex_t0 ex_t0 0 false], [EWrite 1 true; ERestore 0]).
+Proof. vm_compute. repeat split. Qed.
+
+(* a read hit by a fault (lost connection between the last statement and the inspection): nothing
+   unparsable anywhere, every statement succeeded, the second read of the command fails *)
+Example C14_read_fault_nonvacuous :
+  run_cmd NoNorm CValidate false ex_dir SrcNone SrcNone false ([], [false; true]) [] [] =
+    (OInspectFail 0, [], [EWrite 1 true; EWrite 2 true; ERestore 4]) /\
+  (* Pending's CheckClean -- a read inside the session, before the first statement *)
+  run_cmd NoNorm CValidate false ex_dir SrcNone SrcNone false ([], [true]) [] [] =
+    (OInspectFail 0, [], [ERestore 4]) /\
+  run_cmd NoNorm CDiff false [mkMFile false [(1, SCreateTable ex_t0)]] SrcNone
+          (SrcSQL [(2, SCreateTable ex_t0); (3, SCreateView ex_v0)]) true ([], [false; false; false; true]) [] [] =
+    (OInspectFail 0, [], [EWrite 2 true; EWrite 3 true; ERestore 4; EWrite 1 true; ERestore 4]) /\
+  run_cmd NormRealm CSchemaApply false [] SrcNone (SrcHCL [mkHTable 1 ex_t0 [(2, ex_i0)] false]) false ([], [true]) [true] [] =
+    (OInspectFail 0, [mkObj KTable ex_t0 ex_t0 0 true; mkObj KIndex ex_i0 ex_t0 0 true], [EWrite 1 true; EWrite 2 true; ERestore 0]).
 Proof. vm_compute. repeat split. Qed.
